@@ -240,6 +240,12 @@ def select_by_metadata(ds, fmt: str):
     import asyncio
     out = []
     ifaces = ["sync", "concurrent", "tf"] + (["async"] if fmt in ("fb", "npz") else [])
+    class Stateful:
+        """ONE selector object for the whole process; which metadata it wants is changed in place between selections
+        (a bound method / a callable with settings, kept by the application)"""
+        def __init__(self): self.wanted = None
+        def __call__(self, si): return md_code(si.custom_metadata) == self.wanted
+    stateful = Stateful()
     for s, name in enumerate(SPLITS):
         if name not in ds._dataset_info.splits:
             continue
@@ -258,13 +264,17 @@ def select_by_metadata(ds, fmt: str):
                     return ok
                 def __len__(self): return len(self.seen)
             variants = [(i, {}) for i in ifaces] + [(i + "+limit", {"custom_metadata_type_limit": nsh}) for i in ("sync", "concurrent", "tf")] \
-                + [(i + "+shards", {"shards": nsh}) for i in ("sync", "concurrent")] + [(i + "+object", {"shard_filter": "RECORDING"}) for i in ("sync", "concurrent")]
+                + [(i + "+shards", {"shards": nsh}) for i in ("sync", "concurrent")] + [(i + "+object", {"shard_filter": "RECORDING"}) for i in ("sync", "concurrent")] \
+                + [(i + "+stateful", {"shard_filter": "STATEFUL"}) for i in ("sync", "concurrent", "tf")]
             for iface_name, extra in variants:
                 iface = iface_name.split("+")[0]
                 kw = dict(split=name, repeat=False, shuffle=0, shard_filter=flt)
                 kw.update(extra)
                 if kw["shard_filter"] == "RECORDING":
                     kw["shard_filter"] = Recording(code)
+                elif kw["shard_filter"] == "STATEFUL":
+                    stateful.wanted = code
+                    kw["shard_filter"] = stateful
                 try:
                     if iface == "sync": got = [sp.ident(e) for e in ds.as_numpy_iterator(**kw)]
                     elif iface == "concurrent": got = [sp.ident(e) for e in ds.as_numpy_iterator_concurrent(file_parallelism=2, **kw)]
